@@ -452,6 +452,121 @@ impl LineEnding {
 //@@ SUB 1 <<<text: &'a str,>>> ==> <<<text: &'a [u8],>>>
 //@@ END
 
+// ---------------------------------------------------------------------------------------------
+// Line: positions and text of one line.
+
+//@@ EXTRACT file=vendored/src/text_size/range.rs anchor=<<<pub struct TextRange {>>>
+//@@ KEEPSIG
+//@@ END
+
+impl TextRange {
+//@@ EXTRACT file=vendored/src/text_size/range.rs anchor=<<<pub const fn new(start: TextSize, end: TextSize) -> TextRange {>>>
+//@@ SIG
+    const fn new(start: TextSize, end: TextSize) -> (r: TextRange)
+        requires start.raw <= end.raw, // R8: the run-time assert! is the precondition
+        ensures r.start == start, r.end == end,
+//@@ ENDSIG
+//@@ SUB 1 <<<assert!(start.raw <= end.raw);>>> ==> <<<assert(start.raw <= end.raw);>>>
+//@@ END
+
+//@@ EXTRACT file=vendored/src/text_size/range.rs anchor=<<<pub fn at(offset: TextSize, len: TextSize) -> TextRange {>>>
+//@@ SIG
+    fn at(offset: TextSize, len: TextSize) -> (r: TextRange)
+        requires offset.raw + len.raw <= u32::MAX,
+        ensures r.start == offset, r.end.raw == offset.raw + len.raw,
+//@@ ENDSIG
+//@@ SUB 1 <<<TextRange::new(offset, offset + len)>>> ==> <<<TextRange::new(offset, TextSize { raw: offset.raw + len.raw })>>>
+//@@ END
+}
+
+/// `self.text.bytes().rev()`: the bytes from the back (R18: definition of a reversed byte iterator; the
+/// real iterator runs in the Kani twin C15.k.line_as_str).
+struct RevBytes<'a> {
+    s: &'a [u8],
+    n: usize,
+}
+impl<'a> RevBytes<'a> {
+    fn new(s: &'a [u8]) -> (r: Self)
+        ensures r.s@ == s@, r.n == s@.len(),
+    { RevBytes { s, n: s.len() } }
+
+    fn next(&mut self) -> (r: Option<u8>)
+        requires old(self).n <= old(self).s@.len(),
+        ensures final(self).s@ == old(self).s@,
+            old(self).n == 0 ==> r.is_none() && final(self).n == 0,
+            old(self).n > 0 ==> r == Some(old(self).s@[old(self).n - 1]) && final(self).n == old(self).n - 1,
+    {
+        if self.n == 0 { None } else { self.n = self.n - 1; Some(self.s[self.n]) }
+    }
+}
+
+/// A line as the iterator hands it out: its text ends in the text, within u32 positions.
+spec fn line_wf(l: Line) -> bool { l.offset.raw + l.text@.len() <= u32::MAX }
+
+impl<'a> Line<'a> {
+//@@ EXTRACT file=vendored/src/source_location/newlines.rs anchor=<<<pub const fn start(&self) -> TextSize {>>>
+//@@ SIG
+    const fn start(&self) -> (r: TextSize)
+        ensures r == self.offset,
+//@@ ENDSIG
+//@@ END
+
+//@@ EXTRACT file=vendored/src/source_location/newlines.rs anchor=<<<pub fn full_text_len(&self) -> TextSize {>>>
+//@@ SIG
+    fn full_text_len(&self) -> (r: TextSize)
+        requires line_wf(*self),
+        ensures r.raw == self.text@.len(),
+//@@ ENDSIG
+//@@ SUB 1 <<<self.text.text_len()>>> ==> <<<TextSize { raw: self.text.len() as u32 }>>>
+//@@ END
+
+//@@ EXTRACT file=vendored/src/source_location/newlines.rs anchor=<<<pub fn full_end(&self) -> TextSize {>>>
+//@@ SIG
+    fn full_end(&self) -> (r: TextSize)
+        requires line_wf(*self),
+        ensures r.raw == self.offset.raw + self.text@.len(),
+//@@ ENDSIG
+//@@ SUB 1 <<<self.offset + self.full_text_len()>>> ==> <<<TextSize { raw: self.offset.raw + self.full_text_len().raw }>>>
+//@@ END
+
+//@@ EXTRACT file=vendored/src/source_location/newlines.rs anchor=<<<pub fn as_str(&self) -> &'a str {>>>
+//@@ SIGSUB <<<&'a str>>> ==> <<<&'a [u8]>>>
+//@@ SIG
+    fn as_str(&self) -> (r: &'a [u8])
+        ensures
+            // the text without its line ending: exactly one trailing LF, CR LF or CR is stripped
+            r@ == self.text@.take(trim_len(self.text@)),
+//@@ ENDSIG
+//@@ SUB 1 <<<let mut bytes = self.text.bytes().rev();>>> ==> <<<let mut bytes = RevBytes::new(self.text);>>>
+//@@ END
+
+//@@ EXTRACT file=vendored/src/source_location/newlines.rs anchor=<<<pub fn end(&self) -> TextSize {>>>
+//@@ SIG
+    fn end(&self) -> (r: TextSize)
+        requires line_wf(*self),
+        ensures r.raw == self.offset.raw + trim_len(self.text@),
+//@@ ENDSIG
+//@@ SUB 1 <<<self.offset + self.as_str().text_len()>>> ==> <<<TextSize { raw: self.offset.raw + self.as_str().len() as u32 }>>>
+//@@ END
+
+//@@ EXTRACT file=vendored/src/source_location/newlines.rs anchor=<<<pub fn full_range(&self) -> TextRange {>>>
+//@@ SIG
+    fn full_range(&self) -> (r: TextRange)
+        requires line_wf(*self),
+        ensures r.start == self.offset, r.end.raw == self.offset.raw + self.text@.len(),
+//@@ ENDSIG
+//@@ SUB 1 <<<self.text.text_len()>>> ==> <<<TextSize { raw: self.text.len() as u32 }>>>
+//@@ END
+
+//@@ EXTRACT file=vendored/src/source_location/newlines.rs anchor=<<<pub fn range(&self) -> TextRange {>>>
+//@@ SIG
+    fn range(&self) -> (r: TextRange)
+        requires line_wf(*self),
+        ensures r.start == self.offset, r.end.raw == self.offset.raw + trim_len(self.text@),
+//@@ ENDSIG
+//@@ END
+}
+
 //@@ EXTRACT file=vendored/src/source_location/newlines.rs anchor=<<<pub struct UniversalNewlineIterator<'a> {>>>
 //@@ KEEPSIG
 //@@ SUB 1 <<<text: &'a str,>>> ==> <<<text: &'a [u8],>>>
